@@ -73,8 +73,10 @@ class SumKroneckerLinearOperator(SumLinearOperator):
         self: Float[LinearOperator, "... N N"]
     ) -> Union[Float[torch.Tensor, "... N N"], Float[LinearOperator, "... N N"]]:
         inner_mat = self._sum_formulation
+        # the roots have to be the inverse transposes of the inverse roots used in _sum_formulation (a cached root
+        # from a different method is not): L = A L^{-T}
         lt2_root = KroneckerProductLinearOperator(
-            *[lt.root_decomposition().root for lt in self.linear_ops[1].linear_ops]
+            *[lt.matmul(lt.root_inv_decomposition().root.to_dense()) for lt in self.linear_ops[1].linear_ops]
         )
         inner_mat_root = inner_mat.root_decomposition().root
         root = lt2_root.matmul(inner_mat_root)
@@ -86,7 +88,10 @@ class SumKroneckerLinearOperator(SumLinearOperator):
         test_vectors: Optional[torch.Tensor] = None,
     ) -> Union[Float[LinearOperator, "... N N"], Float[Tensor, "... N N"]]:
         inner_mat = self._sum_formulation
-        lt2_root_inv = self.linear_ops[1].root_inv_decomposition().root
+        # the same factor-wise inverse roots as in _sum_formulation
+        lt2_root_inv = KroneckerProductLinearOperator(
+            *[lt.root_inv_decomposition().root for lt in self.linear_ops[1].linear_ops]
+        )
         inner_mat_root_inv = inner_mat.root_inv_decomposition().root
         inv_root = lt2_root_inv.matmul(inner_mat_root_inv)
         return inv_root
